@@ -235,7 +235,7 @@ pub fn render_schema(j: &J) -> J {
         }
         "table_truncate" => { let (r, tk) = obs_take!(Table::truncate().table(a(&st(j, "table"))).to_owned()); json!({"r": r, "take": tk}) }
         "index_drop" => {
-            let mk = || { let mut d = Index::drop(); d.name(st(j, "name")); if let Some(t) = j.get("table").and_then(|x| x.as_str()) { d.table(a(t)); } if j["if_exists"].as_bool().unwrap_or(false) { d.if_exists(); } d };
+            let mk = || { let mut d = Index::drop(); d.name(st(j, "name")); if let Some(t) = j.get("table").and_then(|x| x.as_str()) { match j.get("schema").and_then(|x| x.as_str()) { Some(sc) => { d.table((a(sc), a(t))); } None => { d.table(a(t)); } } } if j["if_exists"].as_bool().unwrap_or(false) { d.if_exists(); } d };
             json!({"r": obs!(mk())})
         }
         "fk_drop" => json!({"r": obs!(ForeignKey::drop().name(st(j, "name")).table(a(&st(j, "table"))).to_owned())}),
@@ -250,12 +250,49 @@ pub fn render_schema(j: &J) -> J {
             m.insert("pg".into(), guarded(|| { let mut t = Type::drop(); t.name(a(&st(j, "name"))); if j["if_exists"].as_bool().unwrap_or(false) { t.if_exists(); } if j["cascade"].as_bool().unwrap_or(false) { t.cascade(); } json!(t.to_string(PostgresQueryBuilder)) }));
             json!({"r": J::Object(m)})
         }
+        "extension_create" => {
+            use sea_query::extension::postgres::Extension;
+            let mut m = serde_json::Map::new();
+            m.insert("pg".into(), guarded(|| {
+                let mut e = Extension::create();
+                e.name(st(j, "name"));
+                if let Some(x) = j.get("schema").and_then(|x| x.as_str()) { e.schema(x); }
+                if let Some(x) = j.get("version").and_then(|x| x.as_str()) { e.version(x); }
+                if j["cascade"].as_bool().unwrap_or(false) { e.cascade(); }
+                if j["if_not_exists"].as_bool().unwrap_or(false) { e.if_not_exists(); }
+                json!(e.to_string(PostgresQueryBuilder))
+            }));
+            json!({"r": J::Object(m)})
+        }
+        "extension_drop" => {
+            use sea_query::extension::postgres::Extension;
+            let mut m = serde_json::Map::new();
+            m.insert("pg".into(), guarded(|| {
+                let mut e = Extension::drop();
+                e.name(st(j, "name"));
+                if j["if_exists"].as_bool().unwrap_or(false) { e.if_exists(); }
+                if j["cascade"].as_bool().unwrap_or(false) { e.cascade(); }
+                if j["restrict"].as_bool().unwrap_or(false) { e.restrict(); }
+                json!(e.to_string(PostgresQueryBuilder))
+            }));
+            json!({"r": J::Object(m)})
+        }
         "type_alter" => {
             let mut m = serde_json::Map::new();
             m.insert("pg".into(), guarded(|| {
                 let t = Type::alter().name(a(&st(j, "name")));
                 let s = match j["op"].as_str().unwrap() {
-                    "add_value" => { let mut x = t.add_value(a(&st(j, "value"))); if let Some(b) = j.get("before").and_then(|x| x.as_str()) { x = x.before(a(b)); } if let Some(b) = j.get("after").and_then(|x| x.as_str()) { x = x.after(a(b)); } x.to_string(PostgresQueryBuilder) }
+                    "add_value" => {
+                        // IF NOT EXISTS is declared before or after the placement ("ine_first")
+                        let ine = j["if_not_exists"].as_bool().unwrap_or(false);
+                        let first = j["ine_first"].as_bool().unwrap_or(false);
+                        let mut x = t.add_value(a(&st(j, "value")));
+                        if ine && first { x = x.if_not_exists(); }
+                        if let Some(b) = j.get("before").and_then(|x| x.as_str()) { x = x.before(a(b)); }
+                        if let Some(b) = j.get("after").and_then(|x| x.as_str()) { x = x.after(a(b)); }
+                        if ine && !first { x = x.if_not_exists(); }
+                        x.to_string(PostgresQueryBuilder)
+                    }
                     "rename_to" => t.rename_to(a(&st(j, "value"))).to_string(PostgresQueryBuilder),
                     "rename_value" => t.rename_value(a(&st(j, "value")), a(&st(j, "to"))).to_string(PostgresQueryBuilder),
                     other => panic!("type alter op {other}"),
